@@ -124,6 +124,9 @@ func discharge(o *Oblig, cfg SolverCfg) {
 			// vacuity check: sat (or unknown) is fine, unsat means the path is infeasible
 			if res == "unsat" {
 				o.Status = "infeasible"
+			} else if o.Kind == "cover" && res != "sat" {
+				// a cover clause is a property obligation: it needs a witness
+				o.Status = "unknown"
 			} else {
 				o.Status = "discharged"
 			}
